@@ -60,8 +60,8 @@ CHECKS = {
  "C17": dict(level="model_checking", technique="CrossHair/z3 bounded symbolic execution: one-step lemma over the read-only proxy from arbitrary valid pre-states, and a root-containment kernel over FileStore key handling on an in-memory POSIX model (ShimFS) with logged accesses",
              text="Read-only view: from every valid 7-key pre-state (MemoryStore, FileStore/ShimFS, store.with_indexer()) each of 7 mutators with universe keys, free symbolic key text |k|<=3, symbolic payload and 13 write modes is refused with ReadOnlyStoreException and leaves every observer and the FS snapshot unchanged; reads equal the underlying reads. Containment: every key of <=3 (thorough 4) components over {name,'.','..','','__metadata__', a sibling whose name extends the root's} x leading '/' x 15 operations, directly / via mount / via evaluate_resource, touches nothing outside the root.",
              design="§4 C17"),
- "C20": dict(level="model_checking", technique="CrossHair/z3 bounded symbolic execution of the enable/disable gate and register_remote_serialized over all call histories within the bound",
-             text="Gate clause only: for every enable/disable history of length <=6 (thorough 10) the gate equals the last call; a refused registration returns the error, leaves the registry unchanged and does not even decode the payload (valid, base64, a pickle with an observable load side effect, 'B'+free bytes); the real Flask endpoints (run untraced per path) refuse exactly when the gate is closed. All other HTTP clauses of C20 are outside the claim.",
+ "C20": dict(level="model_checking", technique="CrossHair/z3 bounded symbolic execution of the enable/disable gate and register_remote_serialized over all call histories within the bound; /q/ responses of the real Flask blueprint compared with in-process evaluation over a query x extension pool indexed symbolically",
+             text="Gate clause and /q/ response clause: for every enable/disable history of length <=6 (thorough 10) the gate equals the last call; a refused registration returns the error, leaves the registry unchanged and does not even decode the payload (valid, base64, a pickle with an observable load side effect, 'B'+free bytes); the real Flask endpoints (run untraced per path) refuse exactly when the gate is closed. GET /q/<query> for 9 queries x 13 file extensions (incl. ones unknown to MIMETYPES): status, body bytes and Content-Type equal in-process evaluate + encode_state_data, failing queries give status >= 400. Store/cache endpoints, request bodies and queries outside the pool are outside the claim.",
              design="§4 C20"),
 }
 NOT_APPLICABLE = {
